@@ -69,6 +69,35 @@ CLAIMED = {
          'signature, which verifies; under CurveLaws signing never fails. Model tied to the code by the correspondence run (libsecp256k1 as cross-oracle).',
          NOTE_COMMON + 'RIPEMD-160 modelled over 32-bit words (masking abstraction covered by correspondence); CurveLaws hypothesis in sign_never_fails only.',
          'Lean 4 proof (hand model + generated tables) + differential correspondence', '6/C20'),
+ 'C06': ('Kernel-checked theorems for every (r, s) in range (all byte-length classes): the hand model of the repository\'s own logic in _sign_input '
+         '(low-R grinding on byte 3, decode, low-S, re-encode, hash-type byte) yields a strictly DER (BIP66) signature with r < 2^255, the low '
+         'representative of s and exactly the hash-type byte; under CurveLaws replacing s by n-s preserves validity. python-ecdsa (RFC6979 signing, DER '
+         'codec) is a parameter whose per-attempt output is logged from the real library and replayed through the model each run; the Spec predicate '
+         '(strict DER, low S, low R, valid for d*G under the library digest) is evaluated on every implementation signature; determinism observed.',
+         NOTE_COMMON + 'python-ecdsa signing is a parameter (validity of its signatures is checked on samples, not proved); CurveLaws hypothesis in lowS_preserves_validity.',
+         'Lean 4 proof (hand model, third-party signer as parameter) + differential correspondence', '6/C06'),
+ 'C09': ('Kernel-checked theorems: WIF export/import round trip for every secret in [1,n-1] and one-byte prefix (generated per-network prefixes), '
+         'standard form, rejection of bad checksum / other version byte / non-alphabet characters, an explicit secret is held exactly or construction '
+         'fails (only the argument-less call is random), public key = d*G, SEC standard forms, and under CurveLaws parsing the compressed, uncompressed '
+         'and x-only encodings of d*G returns the identical point; off-curve x rejected. Model tied to the code by the correspondence run.',
+         NOTE_COMMON + 'base58check, python-ecdsa constructors and sympy sqrt_mod modelled by their specifications; CurveLaws hypothesis in sec_roundtrip.',
+         'Lean 4 proof (hand model) + differential correspondence', '6/C09'),
+ 'C10': ('Kernel-checked theorems: address string = Base58Check(version || hash) with the generated per-network version bytes; an address object '
+         'accepts a string only if it is Base58Check-valid with that version byte and a 20-byte payload and then holds exactly that payload; '
+         'round trip for every 20-byte hash (26..35-character window as hypothesis); pubkey addresses commit to HASH160 of the SEC encoding. '
+         'Rests on the proved Base58 decode/encode round trip. Model tied to the code by the correspondence run (rejection stream).',
+         NOTE_COMMON + 'base58check package modelled as Spec.B58.', 'Lean 4 proof (hand model) + differential correspondence', '6/C10'),
+ 'C11': ('Kernel-checked theorems: generated charset/generator/constant and prefixes are BIP173/BIP350\'s; for v0/20, v0/32, v1/32 programs and every '
+         'network prefix the address decodes back to the same program (general convertbits and checksum round trips proved for the model of '
+         'bech32.py), objects re-created from string or program hold the identical program, whatever is accepted has the right prefix, single '
+         'case, charset, version and checksum variant, the predicate is true on every valid address and false on mixed case / bad checksum. '
+         'Detection of up to four substituted characters (BCH distance) is exercised by sampling only. Model tied to the code by the correspondence run.',
+         NOTE_COMMON + 'BCH minimum distance not proved (partial): substitution detection by correspondence sampling.',
+         'Lean 4 proof (hand model) + differential correspondence', '6/C11'),
+ 'C12': ('Kernel-checked theorems: the five locking-script templates evaluate, through the generated opcode dictionaries and the push-form tie, to the '
+         'standard bytes for every 20/32-byte hash; script-hash commitments are RIPEMD160(SHA256(bytes)) / SHA256(bytes) of the exact script '
+         'encoding (uses the RIPEMD-160 theorem of C20); helper output = locking script of the address from the same script. Model tied to the '
+         'code by the correspondence run.', NOTE_COMMON + 'SHA-256 parameter.', 'Lean 4 proof (hand model + generated tables) + differential correspondence', '6/C12'),
 }
 REASONS_PENDING = 'check under construction in this session (DESIGN.md section 9 build order); will be claimed once its Lean theorems are proved and its correspondence run exists'
 
